@@ -305,9 +305,42 @@ def run(ctx: Ctx, tier: str) -> Result:
     def fresh_container(txt: str) -> bool:
         return txt in ("{}", "dict()", "builtins.dict()")
 
+    def passed_through(a, f, depth=0):
+        """`a` is element i of what a repo function returns, and that element is one of its parameters: follow the argument."""
+        if depth > 3 or a is None:
+            return None
+        idx, call = None, None
+        if isinstance(a, ast.Name):
+            bs = [b for k, b in t.local_bindings(f, a.id) if k == "assign"]
+            if len(bs) == 1 and isinstance(bs[0][1], ast.Call):
+                call, idx = bs[0][1], bs[0][2]
+        elif isinstance(a, ast.Subscript) and isinstance(a.value, ast.Call) and isinstance(a.slice, ast.Constant):
+            call, idx = a.value, a.slice.value
+        if call is None or idx is None:
+            return None
+        tg = t.resolve_call(call, f)
+        if len(tg.repo) != 1 or tg.by_name:
+            return None
+        g_ = tg.repo[0]
+        rets = [r for r in t.nodes_in(g_, ast.Return) if r.value is not None]
+        if not rets or not all(isinstance(r.value, ast.Tuple) and idx < len(r.value.elts) and isinstance(r.value.elts[idx], ast.Name) for r in rets):
+            return None
+        names = {r.value.elts[idx].id for r in rets}
+        if len(names) != 1:
+            return None
+        pn = names.pop()
+        if [k for k, _ in t.local_bindings(g_, pn)] != ["param"]:
+            return None
+        arg = t.bind_args(g_, call).get(pn)
+        if arg is None:
+            return None
+        return ctx.expand.expand(arg, f)
+
     for f, c in ctors:
         a = t.bind_args(init, c).get("var_lookup")
         txt = ctx.expand.expand(a, f) if a is not None else []
+        if not (txt and all(fresh_container(x) for x in txt)):
+            txt = passed_through(a, f) or txt
         if txt and all(fresh_container(x) for x in txt):
             res.ok("C06.INDEP", {"snapshot table": txt[0], "at": f.loc(c)})
         else:
